@@ -785,14 +785,29 @@ func files(paths []string, doSearch bool) {
 			bx := &boxes{stbl: t.Mdia.Minf.Stbl, trak: t}
 			qs := queriesOf(rng, r, x, qopt{intervals: true, sampleData: true, outOfRange: !doSearch, maxAllPairs: 12})
 			if doSearch {
-				for _, q := range qs {
-					if q == "ce" || q == "fs" {
-						continue
+				// pass 0: the boxes the library decoded from the file; pass 1: the same tables rebuilt through
+				// the builder methods by a random history
+				for pass := 0; pass < 2; pass++ {
+					curPlan = "decode (the file's own boxes)"
+					if pass == 1 {
+						pl := genPlan(rng, r, false)
+						curPlan = pl.Encode(r.HasCtts)
+						stbl, _, err := buildPlan(r, pl)
+						if err != nil {
+							fail("table box decoders", "error-returned", r, "build", "err", "ok")
+							continue
+						}
+						bx = &boxes{stbl: stbl, trak: tbl.Trak(stbl)}
 					}
-					got, want := query(bx, q), expected(r, x, q)
-					evals++
-					if got != want {
-						fail(siteOf[strings.Split(q, ":")[0]], classify(got, want), r, q, got, want)
+					for _, q := range qs {
+						if q == "ce" || q == "fs" {
+							continue
+						}
+						got, want := query(bx, q), expected(r, x, q)
+						evals++
+						if got != want {
+							fail(siteOf[strings.Split(q, ":")[0]], classify(got, want), r, q, got, want)
+						}
 					}
 				}
 				continue
@@ -804,6 +819,8 @@ func files(paths []string, doSearch bool) {
 			}
 			base := p[strings.LastIndex(p, "/")+1:]
 			fmt.Fprintf(out, "T\tf-%s-%d\tV\t%s\t%s\t%s\n", base, ti, r.Encode(), decodedPlan(r).Encode(r.HasCtts), sb.String())
+			// the same tables once more, REBUILT through the builder methods by a random history
+			emitCase(fmt.Sprintf("fb-%s-%d", base, ti), "V", r, genPlan(rng, r, false), qs)
 		}
 	}
 	if doSearch {
